@@ -151,15 +151,15 @@ func ParseDuration(s string) (Duration, error) { return time.ParseDuration(s) }
 func ParseInLocation(l, v string, loc *Location) (Time, error) {
 	return time.ParseInLocation(l, v, loc)
 }
-func Since(t Time) Duration       { return time.Since(t) }
+func Since(t Time) Duration { return time.Since(t) }
 func Tick(d Duration) <-chan Time {
 	timeSource()
 	return time.Tick(d)
 }
-func Unix(sec, nsec int64) Time   { return time.Unix(sec, nsec) }
-func UnixMicro(usec int64) Time   { return time.UnixMicro(usec) }
-func UnixMilli(msec int64) Time   { return time.UnixMilli(msec) }
-func Until(t Time) Duration       { return time.Until(t) }
+func Unix(sec, nsec int64) Time { return time.Unix(sec, nsec) }
+func UnixMicro(usec int64) Time { return time.UnixMicro(usec) }
+func UnixMilli(msec int64) Time { return time.UnixMilli(msec) }
+func Until(t Time) Duration     { return time.Until(t) }
 
 func timeSource() {
 	if s := sched.Active(); s != nil && !s.Over() {
